@@ -97,6 +97,15 @@ class DtBigDomain(DtDomain):
     unit_ns = 365 * 24 * NS_PER_TICK
 
 
+class DtNsDomain(DtDomain):
+    """one tick = 8 ns, origin with a sub-microsecond part: every point carries nanoseconds (conversions through
+    python datetime / microsecond resolution lose them).  Only used for evaluation, windows and masking - value x length
+    would be quantised to 1 ns."""
+    name = "dtns"
+    origin = pd.Timestamp("2020-01-01 00:00:00.000000003")
+    unit_ns = 8
+
+
 class TzDomain(DtDomain):
     name = "tz"
     # DST ends 2020-04-05 03:00 local = tick 7: pieces spanning it have a wall-clock length that differs from the
@@ -155,5 +164,5 @@ class TdBigDomain(TdDomain):
     unit_ns = 365 * 24 * NS_PER_TICK
 
 
-DOMAINS = {d.name: d for d in [IntDomain(), FloatDomain(), NpDomain(), DtDomain(), DtBigDomain(), TdBigDomain(), TzDomain(),
+DOMAINS = {d.name: d for d in [IntDomain(), FloatDomain(), NpDomain(), DtDomain(), DtNsDomain(), DtBigDomain(), TdBigDomain(), TzDomain(),
                                TzFixedDomain(), PyDtDomain(), NpDtDomain(), TdDomain()]}
